@@ -95,7 +95,9 @@ ClientLines(fam) ==
   \cup (IF "talk" \in fam
         THEN {<<"PRIVMSG", <<"#a", "hi">>>>, <<"NOTICE", <<"#A", "hi">>>>, <<"PRIVMSG", <<"bob", "hi">>>>,
               <<"PRIVMSG", <<"Alice", "hi">>>>, <<"PRIVMSG", <<"$*", "all">>>>, <<"AWAY", <<"gone">>>>,
-              <<"TOPIC", <<"#a", "new">>>>, <<"TOPIC", <<"#a", "">>>>, <<"TOPIC", <<"#a">>>>, <<"NS", <<"help">>>>}
+              <<"TOPIC", <<"#a", "new">>>>, <<"TOPIC", <<"#a", "">>>>, <<"TOPIC", <<"#a">>>>, <<"NS", <<"help">>>>,
+              <<"WHOIS", <<"bob">>>>, <<"WHOIS", <<"ALICE">>>>, <<"WHO", <<"#a">>>>, <<"LIST", <<>>>>, <<"LIST", <<"#A">>>>, <<"NAMES", <<"#a">>>>,
+              <<"MODE", <<"#a", "+s">>>>}
         ELSE {})
   \cup (IF "oper" \in fam
         THEN {<<"OPER", <<"op", "pw">>>>, <<"OPER", <<"op", "no">>>>, <<"KILL", <<"bob", "r">>>>, <<"KILL", <<"alice", "r">>>>,
@@ -131,7 +133,7 @@ Alphabet(s, k) ==
 MCRec == [panic |-> FALSE, det |-> "", snap |-> "", lines |-> "", view |-> "", rids |-> "", lookup |-> <<>>, e |-> [conf |-> TRUE, id |-> 0]]
 MCFailures(S, e, r) ==
   IF r.panic THEN {<<"C06", "NoPanic">>}
-  ELSE PropFailures(S, e, r.st, r.out \o <<>>, [MCRec EXCEPT !.e = [conf |-> TRUE, id |-> e.id]])
+  ELSE PropFailures(S, e, r.st, r.out \o r.tail, [MCRec EXCEPT !.e = [conf |-> TRUE, id |-> e.id]])
        \cup FS("C17", "LookupSoundModel",
                \A id \in 0..(e.id + 2) : Lookup(r.st, id) = "nosuch" => (Sid(id, 0) \notin DOMAIN r.st.ss /\ id < e.id))
 
